@@ -1502,7 +1502,13 @@ class SuccessionDiagram:
         assert self.dag.edges[parent_id, node_id] is not None
         parent_depth = cast(int, self.dag.nodes[parent_id]["depth"])
         current_depth = cast(int, self.dag.nodes[node_id]["depth"])
-        self.dag.nodes[node_id]["depth"] = max(current_depth, parent_depth + 1)
+        if parent_depth + 1 > current_depth:
+            self.dag.nodes[node_id]["depth"] = parent_depth + 1
+            # The node can already have successors (it was discovered earlier
+            # through a shorter path). Their depth depends on this node, so
+            # the increase has to be propagated.
+            for successor_id in list(self.dag.successors(node_id)):  # type: ignore
+                self._update_node_depth(int(successor_id), node_id)  # type: ignore
 
     def _expand_one_node(self, node_id: int):
         """
